@@ -1,6 +1,43 @@
 import PgFdr.Json
+import PgFdr.Model.C01
+import PgFdr.Model.C06
 namespace PgFdr.Driver
 open Lean PgFdr
+
+/-- `{"op":"fdr","groups":[[ids…]…],"scores":[[num,den]…]}` →
+    `{"fdrs":[[num,den]…],"qvals":[[num,den]…]}` or `{"err":"no_ranked_groups"}` -/
+def handleFdr (j : Json) : R Json := do
+  let groups ← jgroups (← jget j "groups")
+  let scores ← jlist jrat (← jget j "scores")
+  match C01.calcProteinFdrs groups scores with
+  | .error e => pure (ofErr e)
+  | .ok (f, q) => pure (obj [("fdrs", ofList ofRat f), ("qvals", ofList ofRat q)])
+
+/-- `{"op":"is_decoy","groups":[[ids…]…]}` → `{"decoy":[bool…]}` (the marker predicate on its own) -/
+def handleIsDecoy (j : Json) : R Json := do
+  let groups ← jgroups (← jget j "groups")
+  pure (obj [("decoy", ofList (fun g => Json.bool (C01.isDecoyGroup g)) groups)])
+
+/-- the call site `picked_group_fdr.py:454-470`: q-values of the ranking, then the report built with them.
+    `{"op":"fdr_report","groups":…,"infos":[[[pep,peptide,[ids…]]…]…],"scores":…,"keepAll":bool}` →
+    `{"qvals":[…],"rows":[{"proteinIds","score","qValue"}…]}` or `{"err":…}` (first-pass cutoff: inf) -/
+def handleFdrReport (j : Json) : R Json := do
+  let groups ← jgroups (← jget j "groups")
+  let infos ← jlist (jlist jevidence) (← jget j "infos")
+  let scores ← jlist jrat (← jget j "scores")
+  let keepAll ← jbool (← jget j "keepAll")
+  match C01.calcProteinFdrs groups scores with
+  | .error e => pure (ofErr e)
+  | .ok (_, q) =>
+    match C06.fromProteinGroups groups infos scores q none keepAll with
+    | .error e => pure (ofErr e)
+    | .ok rows =>
+      pure (obj [("qvals", ofList ofRat q),
+        ("rows", ofList (fun d : C06.RowData =>
+          obj [("proteinIds", .str (C06.render d).proteinIds), ("score", ofRat d.score),
+               ("qValue", ofRat d.qValue)]) rows)])
+
 /-- protocol handlers of property C01: (op name, handler) -/
-def handlersC01 : List (String × (Json → R Json)) := []
+def handlersC01 : List (String × (Json → R Json)) :=
+  [("fdr", handleFdr), ("is_decoy", handleIsDecoy), ("fdr_report", handleFdrReport)]
 end PgFdr.Driver
